@@ -40,7 +40,8 @@ def cases(draw):
                                   st.tuples(st.just("set_samplers"), lineups()),
                                   st.tuples(st.just("set_scheduler"), lineups()),
                                   st.tuples(st.just("checkpoint")), st.tuples(st.just("read")),
-                                  st.tuples(st.just("restore")), st.tuples(st.just("new_run"), lineups())),
+                                  st.tuples(st.just("restore")), st.tuples(st.just("new_run"), lineups()),
+                                  st.tuples(st.just("failing_batch"))),
                         min_size=2, max_size=8))
     ops = [list(o) for o in ops] + [["read"]]
     return {"initial": draw(lineups()), "ops": ops, "seed": draw(st.integers(0, 1000))}
@@ -77,9 +78,21 @@ def check_labels(ctx: Ctx, case):
         elif op[0] == "read" and stage == 2:
             newclass_then_cal_then_read = True
     ctx.count(sub, case, newclass_then_cal_then_read, [f"ops={len(case['ops'])}"])
+    from harness import models as _models
+    pure = _models.get("gauss", 1)
+    flag = {"fail": False}
+
+    class Boom(Exception):
+        pass
+
+    def model(theta, nn, seed):
+        if flag["fail"]:
+            raise Boom("model failure injected by the harness")
+        return pure(theta, nn, seed)
+    model.__name__ = pure.__name__
     try:
         with Logger() as lg, guard(ctx, "C18/exception", sub, case):
-            cal = calib.build(cfg, saving_folder=folder)
+            cal = calib.build(cfg, saving_folder=folder, model=model)
             table = dict(cal.samplers_id_table)
             written = False
             last_write_complete = False
@@ -101,9 +114,20 @@ def check_labels(ctx: Ctx, case):
                 elif op[0] == "checkpoint":
                     cal.create_checkpoint(folder)
                     written = True
+                elif op[0] == "failing_batch":
+                    # the model fails after the sampler proposed: nothing of that batch may be recorded, labels included
+                    before = len(lg.log)
+                    flag["fail"] = True
+                    try:
+                        cal.calibrate(1)
+                    except Boom:
+                        pass
+                    finally:
+                        flag["fail"] = False
+                    del lg.log[before:]
                 elif op[0] == "new_run":
                     # a different calibration starts writing into the same folder (same process): ids start afresh
-                    cal = calib.build(dict(cfg, lineup=usable(op[1], 0)), saving_folder=folder)
+                    cal = calib.build(dict(cfg, lineup=usable(op[1], 0)), saving_folder=folder, model=model)
                     table = dict(cal.samplers_id_table)
                     del lg.log[:]
                     written = False
@@ -111,7 +135,7 @@ def check_labels(ctx: Ctx, case):
                     # carry on from the calibrator's own checkpoint: ids must survive the round trip as well
                     from black_it.calibrator import Calibrator
                     from harness import models
-                    cal = Calibrator.restore_from_checkpoint(folder, models.get("gauss", 1))
+                    cal = Calibrator.restore_from_checkpoint(folder, model)
                 # ---- table invariants --------------------------------------------------------------------------------
                 cur = dict(cal.samplers_id_table)
                 for name, i in table.items():
